@@ -75,7 +75,7 @@ def gen_program(g, arity, structural):
     elif r < 0.65:
       prog.append(['xadd', a, g.randrange(8)])
     elif structural and r < 0.75:
-      prog.append(['setstatic', a, g.choice(NAMES), g.choice([1, 2, 'a'])])
+      prog.append(['setstatic', a, g.choice(NAMES), g.choice([1, 2, 'a', -1, -2])])
     elif structural and r < 0.8:
       prog.append(['delstatic', a, g.choice(NAMES)])
     elif structural and r < 0.88:
@@ -101,6 +101,7 @@ def generate(rs, tier):
     nprog = {'cond': 2, 'switch': 3}.get(T, 1)
     fns.append(dict(T=T, arity=arity, progs=[gen_program(g, arity, structural and g.random() < 0.7) for _ in range(nprog)]))
   ops = []
+  flip = False
   for _ in range(g.randrange(3, 10)):
     r = g.random()
     if r < 0.62:
@@ -109,6 +110,10 @@ def generate(rs, tier):
         ops.append(dict(ops[-1]))  # identical repetition: trace-cache hit
     elif r < 0.72:
       ops.append(dict(op='call', fn=g.randrange(len(fns)), args=[g.randrange(64) for _ in range(3)], x=g.randrange(1, 4), sel=g.randrange(3), trips=g.randrange(1, 4), fault=g.randrange(16)))
+    elif r < 0.80:
+      # re-bind one static attribute between calls, alternating between two values whose hashes collide in CPython
+      flip = not flip
+      ops.append(dict(op='edit', edit=dict(op='static', obj=g.randrange(2), name='axisflip', value=-1 if flip else -2)))
     elif r < 0.95:
       e = W.gen_build_ops(g, 1)[1:]
       ops.extend(dict(op='edit', edit=x) for x in e)
